@@ -4,6 +4,9 @@
 //
 //   -DVH_PROTO=0  prototype void(const Payload &)   (no copies: payload ledger exact everywhere)
 //   -DVH_PROTO=1  prototype void(Payload)            (by value)
+//   -DVH_PROTO=2  prototype void(Payload) by value, the event key is taken FROM the payload by a getEvent policy
+//                 (enqueue(Payload(k, a)) / dispatch(Payload(k, a)): the one argument is key source and listener argument;
+//                 a moved-from Payload has key -2, so a key read after the argument was moved away is noticed)
 //   -DVH_POLICY=0 default threading   =1 SingleThreading
 #include "common.h"
 #include "eventpp/utilities/orderedqueuelist.h"
@@ -38,6 +41,13 @@ using Proto = void (const Payload &);
 #else
 using Proto = void (Payload);
 #endif
+#if VH_PROTO == 2
+#define VH_GETEVENT_POLICY static int getEvent(const Payload & p) { return p.key; }
+#define VH_EVARGS(k, a) Payload((int)(k), (int)(a))
+#else
+#define VH_GETEVENT_POLICY
+#define VH_EVARGS(k, a) (int)(k), Payload((int)(k), (int)(a))
+#endif
 
 struct KeyCmp
 {
@@ -54,6 +64,7 @@ struct KeyCmp
 
 struct PlainPolicies
 {
+	VH_GETEVENT_POLICY
 #if VH_POLICY == 1
 	using Threading = eventpp::SingleThreading;
 #endif
@@ -61,6 +72,7 @@ struct PlainPolicies
 
 struct OrderedPolicies
 {
+	VH_GETEVENT_POLICY
 #if VH_POLICY == 1
 	using Threading = eventpp::SingleThreading;
 #endif
@@ -128,8 +140,8 @@ struct RunnerT : Runner
 		else if(op == "prepend") { regs[num(c[3])] = q->prependListener((int)num(c[1]), Cb{(int)num(c[2])}); }
 		else if(op == "insert") { typename Q::Handle before = regs[num(c[3])]; regs[num(c[4])] = q->insertListener((int)num(c[1]), Cb{(int)num(c[2])}, before); }
 		else if(op == "remove") { std::printf("ret %d\n", (int)q->removeListener((int)num(c[1]), regs[num(c[2])])); }
-		else if(op == "dispatch") { q->dispatch((int)num(c[1]), Payload((int)num(c[1]), (int)num(c[2]))); }
-		else if(op == "enqueue") { q->enqueue((int)num(c[1]), Payload((int)num(c[1]), (int)num(c[2]))); }
+		else if(op == "dispatch") { q->dispatch(VH_EVARGS(num(c[1]), num(c[2]))); }
+		else if(op == "enqueue") { q->enqueue(VH_EVARGS(num(c[1]), num(c[2]))); }
 		else if(op == "process") { std::printf("ret %d\n", (int)q->process()); }
 		else if(op == "processone") { std::printf("ret %d\n", (int)q->processOne()); }
 		else if(op == "processif") { std::printf("ret %d\n", (int)q->processIf(Pred{(int)num(c[1])})); }
